@@ -302,6 +302,12 @@ def r5_ordering(repo, rep):
     rep.floor('score slots', len(slots), 6)
   from mmsa.props import c14
   c14.check_lt(repo, rep)
+  # the result heap must keep the k best designs pushed (C14.R1/R2): a queue that drops or mis-ranks items loses feasible designs
+  sub = type(rep)(rep.prop, rep.tier, rep.repo)
+  c14.check_push(repo, sub)
+  for i in sub.instances:
+    i.rule = 'R6/heap-' + i.rule.split('/', 1)[1]
+    rep.instances.append(i)
 
 
 def run(repo, rep, tier):
